@@ -47,12 +47,12 @@ def check(chk: Check) -> None:
                             'objects mutated by functions', floor=3)
     R2 = chk.rule('C11.R2', 'reset dominates use: every lexer attribute that rules/actions read or update is assigned a '
                             'constant on every path of parse and list_names before the first call into PLY, and PLY '
-                            'is given this call\'s own text and this parser\'s lexer', floor=5)
+                            'is given this call\'s own text and this parser\'s lexer', floor=4)
     R3 = chk.rule('C11.R3', 'results are not held in parser state: parse/eval/list_names store only constants on the '
                             'parser and its lexer', floor=3)
     R4 = chk.rule('C11.R4', 'fresh evaluation state per eval call (new ScopedDict, new VMState on every evaluating path)',
                   floor=1)
-    R5 = chk.rule('C11.R5', 'evaluation state does not escape the call (= C01.R7)', floor=12)
+    R5 = chk.rule('C11.R5', 'evaluation state does not escape the call (= C01.R7)', floor=8)
     R6 = chk.rule('C11.R6', 'PLY re-initialises per parse: parseopt_notrack assigns fresh stacks before its loop, '
                             'Lexer.input assigns lexdata/lexpos/lexlen; the call site selects that variant', floor=1)
     chk.decided += ['complete inventory of cross-call state and reset-before-use for both lexing entry points (R1,R2)',
